@@ -655,28 +655,37 @@ def failing(case):
     return (oracle_sm if case["kind"] == "sm" else oracle_num)(case, ri)
 
 
-def minimise(case, rounds=12):
-    """drop operations (never constructions: hook indices must stay put) while the oracle still fails"""
+def minimise(case, rounds=40):
+    """delta debugging on the operation list (constructions are never dropped: hook indices must stay put);
+    all candidates of a round run in one subprocess"""
     if case["kind"] != "sm":
         return case, failing(case)[0]
     d, sig = failing(case)
     if d is None:
         return case, None
     ops = case["ops"][: d["step"] + 1]
+    chunk = max(1, len(ops) // 2)
     for _ in range(rounds):
-        cands = [ops[:a] + ops[a + 1:] for a in range(len(ops) - 1) if ops[a][0] != "new"]
-        if not cands:
-            break
-        res = F.run_impl(IMPL, {"cases": [dict(case, ops=c) for c in cands]})
+        cands = []
+        for a in range(0, len(ops) - 1, chunk):
+            keep = ops[:a] + [o for o in ops[a:a + chunk] if o[0] == "new"] + ops[a + chunk:]
+            if len(keep) < len(ops) and keep not in cands:
+                cands.append(keep)
         better = None
-        for c, ri in zip(cands, res):
-            dd, s2 = oracle_sm(dict(case, ops=c), ri)
-            if dd is not None and s2 == sig:
-                better = c[: dd["step"] + 1]
-                break
-        if better is None:
+        if cands:
+            res = F.run_impl(IMPL, {"cases": [dict(case, ops=c) for c in cands]})
+            for c, ri in zip(cands, res):
+                dd, s2 = oracle_sm(dict(case, ops=c), ri)
+                if dd is not None and s2 == sig:
+                    better = c[: dd["step"] + 1]
+                    break
+        if better is not None:
+            ops = better
+            chunk = min(chunk, max(1, len(ops) // 2))
+        elif chunk == 1:
             break
-        ops = better
+        else:
+            chunk = max(1, chunk // 2)
     c = dict(case, ops=ops)
     return c, failing(c)[0]
 
